@@ -99,7 +99,7 @@ theorem mdse_nonneg (h : medianSquaredError yt yp hw mo sqrt = .ok out) (hmo : N
 theorem mape_nonneg (h : meanAbsolutePercentageError eps yt yp hw mo sym = .ok out) (hn : NonnegW hw)
     (hmo : NonnegMO mo) : Out.Nonneg out :=
   finish_nonneg (mape_iff.mp h).2.2.2 hmo
-    (zipWith_cols (fun t p => npAverage_nonneg hw _ hn (map_absR_nonneg _)) yt yp)
+    (zipWith_cols (fun _ _ => npAverage_nonneg hw _ hn (map_absR_nonneg _)) yt yp)
 
 theorem mdapeCol_nonneg (t p : Col) : 0 ≤ mdapeCol eps hw sym t p := by
   unfold mdapeCol
@@ -114,12 +114,12 @@ theorem mdape_nonneg (h : medianAbsolutePercentageError eps yt yp hw mo sym = .o
 theorem mspe_nonneg (h : meanSquaredPercentageError eps yt yp hw mo sqrt sym = .ok out) (hn : NonnegW hw)
     (hmo : NonnegMO mo) : Out.Nonneg out :=
   finish_nonneg (mspe_iff.mp h).2.2.2 hmo
-    (zipWith_cols (fun t p => npAverage_nonneg hw _ hn (map_sqr_nonneg _)) yt yp)
+    (zipWith_cols (fun _ _ => npAverage_nonneg hw _ hn (map_sqr_nonneg _)) yt yp)
 
 theorem mdspe_nonneg (h : medianSquaredPercentageError eps yt yp hw mo sqrt sym = .ok out) (hmo : NonnegMO mo) :
     Out.Nonneg out :=
   finish_nonneg (mdspe_iff.mp h).2.2 hmo
-    (zipWith_cols (fun t p => medianW_nonneg hw _ (map_sqr_nonneg _)) yt yp)
+    (zipWith_cols (fun _ _ => medianW_nonneg hw _ (map_sqr_nonneg _)) yt yp)
 
 theorem masym_nonneg {thr : Rat} {l r : Option EF} (h : meanAsymmetricError yt yp hw mo thr l r = .ok out)
     (hn : NonnegW hw) (hmo : NonnegMO mo) : Out.Nonneg out := by
